@@ -1,3 +1,3 @@
 From Coq Require Import Extraction ExtrOcamlBasic.
 Require Import Urcu.BpArena.BpArena.
-Extraction "bparena_model.ml" alloc free.
+Extraction "bparena_model.ml" alloc free prune.
